@@ -57,11 +57,12 @@ def ang_parts(group, tangent):
     return out
 
 
-def run_jets(exe_d, exe_j, groups, r, n, res_cells):
+def run_jets(exe_d, exe_j, groups, r, n, res_cells, modelled=()):
     """A + B.  -> (violations, n_requests)"""
-    H, HJ = vlib.Server(exe_d), vlib.Server(exe_j)
+    H, HJ, M = vlib.Server(exe_d), vlib.Server(exe_j), vlib.Server(vlib.DRIVER)
     viol, total = [], 0
     worst = {}
+    l1_bad = []        # the model evaluated at Dual Float (JetRun.lean) vs the C++ over the Jet scalar, bit for bit
     try:
         for group in groups:
             for op, (sig, nj) in purity.MASKED.items():
@@ -71,9 +72,15 @@ def run_jets(exe_d, exe_j, groups, r, n, res_cells):
                     mask = r.randrange(1, 1 << nj) if k % 3 else (1 << nj) - 1
                     l = gen.req(True, "o", group, op, mask, a)
                     lj = gen.req(True, "o", group, "jet_" + op, mask, a)
-                    ra, rj = H.ask(l).split(), HJ.ask(lj).split()
-                    total += 2
+                    rj_line = HJ.ask(lj)
+                    ra, rj = H.ask(l).split(), rj_line.split()
+                    total += 3
                     res_cells.add(("jet", group, op, "mask%d" % mask, "moderate" if moderate else "any") + tuple(t.split("/")[0] for t in tags))
+                    if group in modelled:
+                        rm = M.ask(lj)
+                        eq, why = l1.compare(rj_line, rm, (group, op))
+                        if not eq:
+                            l1_bad.append(dict(request=lj, tags=["dual", op, "mask%d" % mask] + tags, impl=rj_line, model=rm, why=why, scalar="dual"))
                     if ra[0] != rj[0] or (ra[0] != "ok" and ra[1:2] != rj[1:2]):
                         viol.append(V(group, op, "status", tags, lj, "dual-scalar run ends differently: double %s, Jet %s" % (" ".join(ra[:2]), " ".join(rj[:2]))))
                         continue
@@ -133,7 +140,8 @@ def run_jets(exe_d, exe_j, groups, r, n, res_cells):
     finally:
         H.close()
         HJ.close()
-    return viol, total, worst
+        M.close()
+    return viol, total, worst, l1_bad
 
 
 def run_functors(exe_j, groups, r, n, res_cells):
